@@ -53,7 +53,7 @@ var projTableNames = []string{"authors", "books", "venues", "users", "book_tags"
 var projColPool = []struct{ n, t string }{
 	{"name", "text"}, {"title", "varchar(200)"}, {"bio", "text"}, {"age", "int"}, {"score", "bigint"}, {"rating", "real"}, {"price", "numeric(10,2)"},
 	{"active", "boolean"}, {"created_at", "timestamptz"}, {"born", "date"}, {"meta", "jsonb"}, {"uid", "uuid"}, {"tags", "text[]"}, {"ip", "inet"},
-	{"blob", "bytea"}, {"slug", "text"}, {"spent", "interval"}, {"ids", "bigint[]"},
+	{"blob", "bytea"}, {"slug", "text"}, {"spent", "interval"}, {"ids", "bigint[]"}, {"stamps", "timestamptz[]"}, {"uids", "uuid[]"},
 }
 var projMyColPool = []struct{ n, t string }{
 	{"name", "varchar(100)"}, {"title", "varchar(200)"}, {"bio", "text"}, {"age", "int"}, {"score", "bigint"}, {"rating", "double"}, {"price", "decimal(10,2)"},
